@@ -623,6 +623,12 @@ func (r *run) finish(nd *node) error {
 		}
 	}
 	ev["read"], ev["wrote"] = read, wrote
+	var cpl raft.Log
+	if err := nd.hk.LogStore.GetLog(rep.Range.End, &cpl); err != nil {
+		ev["cpread"] = missing
+	} else {
+		ev["cpread"] = r.in.abs(&cpl)
+	}
 	ev["met"] = nd.met()
 	r.out.emit(ev)
 	return nil
